@@ -1196,6 +1196,8 @@ func c17Enumerate(thorough bool, f func(s c17Sig)) {
 			f(c17Sig{Group: "errident", Extra: fmt.Sprintf("%d/%d", ei, ci)})
 		}
 	}
+	// 10. string and []byte results with the same text are the same AWK value
+	f(c17Sig{Group: "strbytes"})
 	// 7. non-function values
 	nf := []string{"int", "string", "float", "struct", "bytes", "map", "pointer", "pointer-to-func", "nil", "typed-nil-func"}
 	sort.Strings(nf)
@@ -1222,6 +1224,42 @@ func c17Dispatch(c *core.Ctx, r *c17Runner, s c17Sig) {
 		c17CheckShadow(c, r, s)
 	case "errident":
 		c17CheckErrIdent(c, r, s)
+	case "strbytes":
+		c17CheckStrBytes(c, r, s)
+	}
+}
+
+// c17CheckStrBytes: both string kinds give the same AWK value: a string result
+// and a []byte result with the same text behave identically in truth tests and
+// comparisons (which behaviour a numeric-looking text has is not asserted).
+func c17CheckStrBytes(c *core.Ctx, r *c17Runner, s c17Sig) {
+	texts := []string{"0", "10", " 5 ", "1e3", "abc", "", "0.0", "+7", "-1", ".5"}
+	var got []string
+	funcs := map[string]any{
+		"rs":  func(i int) string { return texts[i] },
+		"rb":  func(i int) []byte { return []byte(texts[i]) },
+		"obs": func(v string) { got = append(got, v) },
+	}
+	src := `function probe(x) { return (x ? "T" : "F") (x < 9 ? "a" : "b") (x < "9" ? "c" : "d") (x == 1000 ? "e" : "f") (x == 0 ? "g" : "h") (!x ? "i" : "j") (x "" == x ? "k" : "l") }
+BEGIN { for (i = 0; i < n; i++) { obs(probe(rs(i)) " " probe(rb(i))); y = rs(i); z = rb(i); obs((y < z) (y == z) (y > z) (y ? 1 : 0) (z ? 1 : 0)) } }`
+	c.Announce(s)
+	prog := awk.MustParse(src, funcs)
+	res := awk.Exec(prog, &interp.Config{Funcs: funcs, Vars: []string{"n", strconv.Itoa(len(texts))}})
+	c.Eval(1)
+	c.Add("transitions", 1)
+	if res.Panic != "" || res.Err != nil {
+		r.fail(c, "strbytes-run-failed", s, fmt.Sprintf("%s %v", firstLine(res.Panic), res.Err))
+		return
+	}
+	c.Outcome("strbytes " + strings.Join(got, ","))
+	for i := 0; i+1 < len(got); i += 2 {
+		w := strings.Fields(got[i])
+		if len(w) != 2 || w[0] != w[1] {
+			r.fail(c, "string-and-bytes-results-differ", s, fmt.Sprintf("text %q: a string result behaves as %q, a []byte result as %q", texts[i/2], w[0], w[len(w)-1]))
+		}
+		if got[i+1][:3] != "010" || got[i+1][3] != got[i+1][4] {
+			r.fail(c, "string-and-bytes-results-differ", s, fmt.Sprintf("text %q: rs() vs rb(): (<)(==)(>)(truth)(truth) = %s", texts[i/2], got[i+1]))
+		}
 	}
 }
 
